@@ -46,12 +46,28 @@ First == CHOOSE u \in Units : u.id = "None"
 \* collectors (Distribution / Mean): an element type that promises a and writes b.  Every ordered pair
 \* of the 26 units, "None" included on either side: a # b is a validation error, never a number.
 Wrote(u, slot) == Metric(<<Ob("U", slot, 0, 0)>>, u.id, u.id, <<>>, {})
+WroteR(u, slot, n) == Metric(<<Ob("R", slot, 0, n)>>, u.id, u.id, <<>>, {})   \* a Repeated with n occurrences
 CollectInv ==
     LET d == CollectDist(a.id, <<Wrote(b, 1), Wrote(b, 2)>>)
         m == CollectMean(a.id, <<Wrote(b, 1), Wrote(b, 2)>>)
     IN  IF a = b THEN /\ d.kind = "metric" /\ d.unit = a.id /\ Len(d.obs) = 2 /\ PhysicalOK(d)
                       /\ m.kind = "metric" /\ m.unit = a.id /\ m.obs[1].occ = 2 /\ PhysicalOK(m)
         ELSE d.kind = "error" /\ m.kind = "error"
+\* a mean over Repeated inputs: totals are summed, occurrences are summed (2 + 3), whatever the unit;
+\* a distribution whose members are ALL rejected is a validation error, never silence
+CollectRepInv ==
+    LET m == CollectMean(a.id, <<WroteR(b, 1, 3), WroteR(b, 2, 2)>>)
+        d1 == CollectDist(a.id, <<Wrote(b, 1)>>)
+    IN  IF a = b THEN m.kind = "metric" /\ m.obs[1].occ = 5 /\ m.obs[1].slots = <<1, 2>> /\ PhysicalOK(m) /\ d1.kind = "metric"
+        ELSE m.kind = "error" /\ d1.kind = "error"
+\* ... and with a unit conversion between the inputs and the mean: WithUnit<Tri<a>, b> and WithUnit<Mean<a>, b>
+\* recorded into Mean<b>: 1 + 1 + 3 + 2 occurrences, the four magnitudes summed and scaled by Ratio(a, b)
+MeanConv(x, y) == CollectMean(y.id, <<PairVal("tri", x, y).call, Reslot(PairVal("mean", x, y).call, 3)>>)
+MeanConvInv ==
+    Convertible(a, b) =>
+        LET m == MeanConv(a, b)
+        IN  /\ m.kind = "metric" /\ m.unit = b.id /\ m.obs[1].occ = 7 /\ m.obs[1].slots = <<1, 2, 3, 4>>
+            /\ m.obs[1].e2 = Ratio(a, b).p2 /\ m.obs[1].e10 = Ratio(a, b).p10 /\ PhysicalOK(m)
 EmitCollect == (c = First) =>
     PrintT(<<"COLLECT", ToJson([prom |-> a.id, wrote |-> b.id,
                                  dist |-> CollectDist(a.id, <<Wrote(b, 1), Wrote(b, 2)>>),
@@ -60,7 +76,11 @@ EmitCollect == (c = First) =>
                                  mean_u64 |-> CollectMean(a.id, <<BaseVal("u64").call>>),
                                  \* an element that makes no call / a string element
                                  dist_empty_elem |-> CollectDist(a.id, <<NoCall, Wrote(a, 1)>>),
-                                 dist_string |-> CollectDist(a.id, <<StringCall>>)])>>)
+                                 dist_string |-> CollectDist(a.id, <<StringCall>>),
+                                 \* one member only; Repeated members (3 and 2 occurrences)
+                                 dist1 |-> CollectDist(a.id, <<Wrote(b, 1)>>),
+                                 dist_rep |-> CollectDist(a.id, <<WroteR(b, 1, 3), WroteR(b, 2, 2)>>),
+                                 mean_rep |-> CollectMean(a.id, <<WroteR(b, 1, 3), WroteR(b, 2, 2)>>)])>>)
 
 Emit == (c = First /\ Convertible(a, b)) =>
             PrintT(<<"REPLAY", ToJson([from |-> a.id, to |-> b.id, from_name |-> a.name, to_name |-> b.name,
@@ -70,7 +90,13 @@ Emit == (c = First /\ Convertible(a, b)) =>
                                         rt_e10 |-> RAdd(Ratio(a, b), Ratio(b, a)).p10,
                                         time |-> (a.fam = "time"),
                                         \* a Duration of m seconds declared/converted a, then b: m * 10^dur_e10
-                                        dur_e10 |-> IF a.fam = "time" THEN PairVal("dur", a, b).call.obs[1].e10 ELSE 0])>>)
+                                        dur_e10 |-> IF a.fam = "time" THEN PairVal("dur", a, b).call.obs[1].e10 ELSE 0,
+                                        \* Mean<b> over WithUnit<Tri<a>, b> and WithUnit<Mean<a>, b>
+                                        mean_conv |-> MeanConv(a, b),
+                                        \* the mean of two Durations declared a and converted to b
+                                        mean_dur |-> IF a.fam = "time"
+                                                     THEN CollectMean(b.id, <<PairVal("dur", a, b).call, Reslot(PairVal("dur", a, b).call, 1)>>)
+                                                     ELSE NoCall])>>)
 
 (* the #[metrics(unit = ...)] attribute: fields of statically declared structs in the driver.   *)
 (* The attribute is documented to behave as WithUnit<field type, unit>; a Duration without the  *)
